@@ -130,9 +130,11 @@ for _c in ("white", "black"):
     K("C16/attackers/%s" % _c, ["C16", "C19"], MG + "c16_attackers_%s" % _c, ["movegen::do_cell_attackers", "movegen::do_is_cell_attacked", "movegen::cell_attackers", "movegen::is_cell_attacked", "Board::piece2", "Board::piece_diag", "Board::piece_line"],
       "for all well-formed boards (any men, any counts) x 64 squares: attackers(sq, %s) == the men of that colour that could capture on sq by a pseudo-legal non-en-passant capture (reference walk from the square); is_attacked == non-empty" % _c,
       assumes=TABLES)
-K("C16/check-queries", ["C16", "C19"], MG + "c16_check_queries", ["Board::is_check", "Board::checkers", "Board::is_opponent_king_attacked", "Board::king_pos"],
-  "for all well-formed boards with one king each: king_pos is the king's square (unwrap never fails), checkers == attackers of the mover's king, is_check == non-empty, is_opponent_king_attacked == the other king is attacked by the mover",
-  assumes=TABLES)
+for _c in ("w", "b"):
+    K("C16/check-queries/%s" % _c, ["C16", "C19"], "movegen::verif_kani_b::c16_check_queries_%s" % _c, ["Board::is_check", "Board::checkers", "Board::is_opponent_king_attacked", "Board::king_pos"],
+      "for all well-formed boards with one king each (side %s to move): king_pos is the king's square (unwrap never fails), checkers == attackers of the mover's king, is_check == non-empty, is_opponent_king_attacked == the other king is attacked by the mover" % _c,
+      assumes=TABLES, timeout=2400)
+CHECKQ = ["C16/check-queries/w", "C16/check-queries/b"]
 
 # ---------------------------------------------------------------------------------------------
 # C06 well-formedness and semilegal validation; C03/C04/C05 step contracts
@@ -175,8 +177,8 @@ K("C07/insufficient", ["C07"], BD + "c07_insufficient_material", ["Board::is_ins
   assumes=["C20/consts/lines-colours"])
 K("C07/calc-outcome", ["C07", "C14"], BD + "c07_calc_outcome_precedence", ["Board::calc_outcome", "Board::calc_draw_simple"],
   "for all well-formed boards with one king each and either answer of has_legal_moves (imported contract): checkmate (won by the side not to move) iff no move and in check; stalemate iff no move and not in check; else insufficient material, else 75-move (clock >= 150), else 50-move (clock >= 100), else none",
-  assumes=["C07/insufficient", "C16/check-queries"] + TABLES)
-K("C11/try-from/accepts", ["C11", "C02"], BD + "c11_try_from_accepts_exactly_valid", ["<Board as TryFrom<RawBoard>>::try_from"],
+  assumes=["C07/insufficient", "C16/check-queries/w", "C16/check-queries/b"] + TABLES)
+K("C11/try-from/accepts", ["C11", "C02", "C19"], BD + "c11_try_from_accepts_exactly_valid", ["<Board as TryFrom<RawBoard>>::try_from"],
   "for all raw boards: try_from is Ok iff (mark on the right rank, <= 16 men a side, exactly one king each, no pawn on rank 1/8, side not to move not in check); on Err the reported condition (with its square / colour) really holds",
   assumes=ATT, timeout=3000, mem_gb=20)
 K("C11/try-from/normalised", ["C11", "C02", "C05"], BD + "c11_try_from_result_is_normalised_inv", ["<Board as TryFrom<RawBoard>>::try_from"],
@@ -195,12 +197,12 @@ for _s, _k in KINDS:
         K("C01/legal/is-legal/%s/%s" % (_k, _c), ["C01", "C02", "C07", "C09"], LG + "c01_is_legal_%s_%s" % (_s, _c),
           ["legal::Checker::new", "legal::Checker::is_legal", "legal::Checker::is_attacked", "legal::NilPrechecker::is_legal_pre", "Move::is_legal_unchecked"],
           "for all well-formed boards (side %s, one king each, consistent mark, normalised rights) x all pseudo-legal moves of kind %s: Move::is_legal_unchecked (Checker without prefilter) == (mover's king not attacked in ref_apply(position, move))" % (_c, _k),
-          assumes=TABLES + ["C15/pawns/advances", "C16/check-queries", "C06/semilegal/%s/%s" % (_k, _c)], timeout=3600, mem_gb=16)
+          assumes=TABLES + ["C15/pawns/advances", "C16/check-queries/w", "C16/check-queries/b", "C06/semilegal/%s/%s" % (_k, _c)], timeout=3600, mem_gb=16)
         K("C01/legal/is-legal-prefilter/%s/%s" % (_k, _c), ["C01", "C02", "C07", "C09"], LG + "c01_is_legal_pre_%s_%s" % (_s, _c),
           ["legal::Checker::new", "legal::Checker::is_legal", "legal::Checker::is_attacked", "legal::DefaultPrechecker::new", "legal::DefaultPrechecker::pinned",
            "legal::DefaultPrechecker::bishop_xray", "legal::DefaultPrechecker::rook_xray", "legal::DefaultPrechecker::is_legal_pre"],
           "the same with the pin / check prefilter (DefaultPrechecker: the decision used by the legal generators, has_legal_moves and SAN): == (mover's king not attacked in ref_apply(position, move)), side %s, kind %s" % (_c, _k),
-          assumes=TABLES + ["C15/between/all-pairs", "C15/pawns/advances", "C16/check-queries", "C06/semilegal/%s/%s" % (_k, _c)], timeout=3600, mem_gb=16)
+          assumes=TABLES + ["C15/between/all-pairs", "C15/pawns/advances", "C16/check-queries/w", "C16/check-queries/b", "C06/semilegal/%s/%s" % (_k, _c)], timeout=3600, mem_gb=16)
         ISLEGAL += ["C01/legal/is-legal/%s/%s" % (_k, _c), "C01/legal/is-legal-prefilter/%s/%s" % (_k, _c)]
 K("C01/validate-glue", ["C01", "C02", "C09", "C10"], MB + "c01_validate_glue", ["Move::validate", "Move::semi_validate"],
   "with is_semilegal and is_legal_unchecked imported as free booleans: semi_validate is Ok iff semilegal (else NotSemiLegal); validate is Err(NotSemiLegal) if not semilegal, else Ok iff legal, else Err(NotLegal)",
@@ -215,7 +217,7 @@ V("C13/chain/verus", ["C13", "C14", "C04", "C02", "C05"], "chain.vspec",
    "BaseMoveChain::is_finished", "BaseMoveChain::clear_outcome", "BaseMoveChain::set_outcome", "BaseMoveChain::reset_outcome", "BaseMoveChain::calc_outcome",
    "BaseMoveChain::set_auto_outcome", "BaseMoveChain::do_finish_push", "BaseMoveChain::push_unchecked", "BaseMoveChain::push", "BaseMoveChain::pop", "Outcome::is_force", "Outcome::passes"],
   "for chains of ANY length and any Repeat / Make implementation satisfying their contracts: push on Ok appends exactly the denoted legal move (board == apply, undo recorded, table +1), on Err changes nothing; pop removes exactly the last entry, restores the previous board, clears the outcome, table -1; lemmas: the chain invariant (board == replay(start, moves), undo data and legality of every entry, table == multiset of all positions so far) is established by new and preserved by push/pop/outcome operations; calc_outcome satisfies the C14 precedence relation; set_auto_outcome stores exactly when the filter passes; history lemmas (any length): an invariant preserved by every step holds along every history (C05), and undoing a whole history newest-first returns the start position (C04)",
-  assumes=STEP + ["C07/calc-outcome", "C11/try-from/normalised", "C20/types/outcome-filter"])
+  assumes=STEP + ["C07/calc-outcome", "C11/try-from/normalised", "C20/types/outcome-filter"] + ["C05/hash-step/%s/%s" % (_k, _c) for _s, _k in KINDS + [("null", "Null")] for _c in ("w", "b")])
 
 # ---------------------------------------------------------------------------------------------
 # C02 the safe application path; C10 UCI
@@ -309,8 +311,8 @@ for _g in ("knight", "king", "bishop", "rook", "queen", "pawn_simple", "pawn_cap
         else:
             EXITS_QUICK.append(_id)
 
-K("C07/legal-filter", ["C07", "C01", "C09"], MG + "c07_legal_filter_forwards_iff_is_legal", ["movegen::LegalFilter::new", "movegen::LegalFilter::push", "movegen::ErrOnFirst::push"],
-  "for all boards with one king each and any move: LegalFilter::push forwards the move to the inner sink exactly when Checker<DefaultPrechecker>::is_legal holds and returns the inner sink's answer; ErrOnFirst refuses every push",
+K("C07/legal-filter", ["C07", "C01", "C09"], "movegen::verif_kani_b::c07_legal_filter_glue", ["movegen::LegalFilter::new", "movegen::LegalFilter::push", "movegen::ErrOnFirst::push"],
+  "for all boards with one king each and any move, with Checker::is_legal imported as a free boolean: LegalFilter::push forwards the move to the inner sink exactly when the checker says legal and returns the inner sink's answer; ErrOnFirst refuses every push",
   assumes=ISLEGAL)
 
 V("C01/gen/dispatch", ["C01", "C06", "C07"], "movegen.vspec",
@@ -377,7 +379,7 @@ K("C12/fen/record-tail", ["C12", "C08"], BD + "c12_raw_from_str_tail_total", ["<
 # spec-level lemmas (reference semantics only): C18, C02, C07 (d), class partition
 # ---------------------------------------------------------------------------------------------
 LM = "verif_lemmas::"
-IMPL_EQ_REF = ISLEGAL + GEN_ALL + ["C01/gen/dispatch", "C07/calc-outcome", "C07/insufficient", "C16/attackers/white", "C16/attackers/black", "C16/check-queries",
+IMPL_EQ_REF = ISLEGAL + GEN_ALL + ["C01/gen/dispatch", "C07/calc-outcome", "C07/insufficient", "C16/attackers/white", "C16/attackers/black", "C16/check-queries/w", "C16/check-queries/b",
                                    "C11/try-from/accepts"] + ["C06/semilegal/%s/%s" % (_k, _c) for _s, _k in KINDS for _c in ("w", "b")]
 K("C18/spec/attack-validity", ["C18"], LM + "c18_attack_and_validity_commute_with_mirrors", [],
   "rules: for all raw boards, attackers / validity / insufficient material commute with the colour mirror (ranks flipped, colours, side, rights, mark swapped) and with the left-right mirror; both mirrors are involutions",
@@ -415,7 +417,7 @@ OBS.append(dict(id="C19/unsafe-site-map", props=["C19"], backend="scan", fns=[],
 
 V("C09/check-marks/verus", ["C09"], "san.vspec", ["san::Move::from_move"],
   "san::Move::from_move: Ok iff the move is legal; the data part is Data::from_move; the check mark is '+' iff the position after the move is check and the opponent has a legal move, '#' iff it is check and there is none, none otherwise",
-  assumes=["C16/check-queries", "C07/legal-filter", "C01/gen/dispatch", "C09/from-move/simple", "C09/from-move/pawns-castling"] + ["C02/make-move/%s/%s" % (_k, _c) for _s, _k in KINDS for _c in ("w", "b")])
+  assumes=["C16/check-queries/w", "C16/check-queries/b", "C07/legal-filter", "C01/gen/dispatch", "C09/from-move/simple", "C09/from-move/pawns-castling"] + ["C02/make-move/%s/%s" % (_k, _c) for _s, _k in KINDS for _c in ("w", "b")])
 
 K("C01/legal-gen/end-to-end-small", ["C01", "C06", "C19"], MG + "c01_legal_generators_end_to_end_small_boards",
   ["movegen::legal::gen_all", "movegen::legal::gen_capture", "movegen::legal::gen_simple", "movegen::legal::gen_simple_no_promote", "movegen::legal::gen_simple_promote",
@@ -428,6 +430,12 @@ K("C17/styled/empty-chain", ["C17"], CH + "c17_styled_list_empty_chain", ["<Styl
 K("C17/lists/fixed-game", ["C17"], CH + "c17_lists_fixed_game", ["<StyledList as Display>::fmt", "<UciList as Display>::fmt", "BaseMoveChain::from_uci_list", "BaseMoveChain::push_uci_list"],
   "for one fixed 3-ply game starting with Black to move and every number policy (Omit / FromBoard / Custom n), status policy and stored outcome: the SAN list is 'N... e5 N+1. Nf3 Nc6 [status]' with numbers continuing from the start position's (or the custom) number; the UCI list is the moves in order joined by single spaces, and replaying it rebuilds an equal chain",
   bounded="one fixed game; SAN style only; custom start numbers < 256", timeout=5400, mem_gb=24, mem_est=8)
+
+K("C07/has-legal-moves/small-boards", ["C07"], "movegen::verif_kani_b::c07_has_legal_moves_small_boards", ["movegen::has_legal_moves", "Board::has_legal_moves"],
+  "for every valid position with at most two men a side: has_legal_moves() == the legal move list is non-empty (real glue: ErrOnFirst, LegalFilter, side dispatch)",
+  bounded="positions with at most 2 men per side", assumes=["C01/legal-gen/end-to-end-small"], timeout=5400, mem_gb=24, mem_est=8)
+N("C19/capacity-witnesses", ["C19"], "movegen::verif_kani_b::n19_capacity_and_known_high_mobility_positions", ["movegen::MoveList", "movegen::semilegal::gen_all_into"],
+  "NOT a proof of A-CAP: MoveList capacity is the documented 256 and is not exceeded by the highest-mobility positions known (218 legal in a reachable position; 242 semilegal with 15 promoted queens), evaluated on the real generator through the safe Vec sink")
 
 
 def by_id():
